@@ -1,0 +1,66 @@
+//go:build verif
+
+// Contracts for package auto, checked by /verif (govc). Comment-only.
+
+package auto
+
+//@ -- first(style): the section before the first "."; named(n): what the decoration registry holds for n
+//@ spec first(style Str) Str = splitpart(style, ".", 0)
+//@ spec named(n Str) decoration.Decoration = has(decoration.registry.table, n) ? decoration.registry.table[n] : decoration.EmptyDecoration
+//@ spec isSubpkg(s Str) bool = s == "csv" || s == "html" || s == "markdown" || s == "json" || s == "texttable"
+
+//@ func Wrap
+//@   tags C19,C10,C09
+//@   requires tbl(t) && !lockHeld
+//@   assigns new(csv.CSVTable), new(html.HTMLTable), new(markdown.MarkdownTable), new(json.JSONTable), new(texttable.TextTable), heap[tabular.callbackSet.renderTime], heap[tabular.callbackSet.addTime], heap[tabular.callbackSet.preCellRenderTime], heap[tabular.callbackSet.postCellRenderTime], heap[[]tabular.PropertyCallback], ghost lockHeld
+//@   ensures [lock-released] !lockHeld
+//@   ensures [one-of-the-five-wrappers-around-t] (dyn(result) == type[*csv.CSVTable] && result.(*csv.CSVTable) != nil && result.(*csv.CSVTable).Table === t) || (dyn(result) == type[*html.HTMLTable] && result.(*html.HTMLTable) != nil && result.(*html.HTMLTable).Table === t) || (dyn(result) == type[*markdown.MarkdownTable] && result.(*markdown.MarkdownTable) != nil && result.(*markdown.MarkdownTable).Table === t) || (dyn(result) == type[*json.JSONTable] && result.(*json.JSONTable) != nil && result.(*json.JSONTable).Table === t) || (dyn(result) == type[*texttable.TextTable] && result.(*texttable.TextTable) != nil && result.(*texttable.TextTable).Table === t) @C10
+//@   ensures [csv-any-case-trailing-sections-ignored] lower(first(style)) == "csv" ==> dyn(result) == type[*csv.CSVTable] && result.(*csv.CSVTable).Table === t @C19
+//@   ensures [html-any-case-trailing-sections-ignored] lower(first(style)) == "html" ==> dyn(result) == type[*html.HTMLTable] && result.(*html.HTMLTable).Table === t @C19
+//@   ensures [markdown-any-case-trailing-sections-ignored] lower(first(style)) == "markdown" ==> dyn(result) == type[*markdown.MarkdownTable] && result.(*markdown.MarkdownTable).Table === t @C19
+//@   ensures [json-any-case-trailing-sections-ignored] lower(first(style)) == "json" ==> dyn(result) == type[*json.JSONTable] && result.(*json.JSONTable).Table === t @C19
+//@   ensures [plain-texttable-is-the-default-decoration] lower(first(style)) == "texttable" && splitcnt(style, ".") == 1 ==> dyn(result) == type[*texttable.TextTable] && complete(result.(*texttable.TextTable).decor) && !result.(*texttable.TextTable).decor.isBoxless @C19
+//@   ensures [texttable-dot-name] lower(first(style)) == "texttable" && splitcnt(style, ".") > 1 ==> dyn(result) == type[*texttable.TextTable] && result.(*texttable.TextTable).decor == named(splitpart(style, ".", 1)) @C19
+//@   ensures [bare-name-same-decoration-as-texttable-dot-name] !isSubpkg(lower(first(style))) ==> dyn(result) == type[*texttable.TextTable] && result.(*texttable.TextTable).decor == named(first(style)) && result.(*texttable.TextTable).Table === t @C19
+//@   ensures [listed-plain-name-selects-its-decoration] has(decoration.registry.table, style) && splitcnt(style, ".") == 1 && !isSubpkg(lower(style)) ==> dyn(result) == type[*texttable.TextTable] && result.(*texttable.TextTable).decor == decoration.registry.table[style] @C19
+//@   ensures [listed-name-is-accepted] has(decoration.registry.table, style) && decoration.registry.table[style] != decoration.EmptyDecoration ==> !(dyn(result) == type[*texttable.TextTable] && result.(*texttable.TextTable).decor == decoration.EmptyDecoration) @C19
+
+//@ func ListStyles
+//@   tags C19,C09
+//@   requires !lockHeld
+//@   assigns ghost lockHeld, ghost it_visited, ghost it_count, new(string)
+//@   ensures [lock-released] !lockHeld
+//@   ensures [sorted] forall i int, j int :: {result[i], result[j]} 0 <= i && i < j && j < len(result) ==> strLE(result[i], result[j]) @C19
+//@   ensures [registered-decorations-and-the-four-other-renderers] len(result) == len(decoration.registry.table) + 4 && forall s Str :: {countIn(heap[string], result, len(result), s)} countIn(heap[string], result, len(result), s) == (has(decoration.registry.table, s) ? 1 : 0) + (s == "csv" ? 1 : 0) + (s == "html" ? 1 : 0) + (s == "json" ? 1 : 0) + (s == "markdown" ? 1 : 0) @C19
+//@   call RegisteredDecorationNames after label L0
+//@   call Strings before assert [listing-kept-by-append] len(l) == at(L0, len(res0)) + 4 && (forall i int :: {l[i]} 0 <= i && i < len(l) - 4 ==> l[i] == at(L0, res0[i])) && l[len(l) - 4] == "csv" && l[len(l) - 3] == "html" && l[len(l) - 2] == "json" && l[len(l) - 1] == "markdown" @C19
+//@   call Strings before unfold forall s Str :: countIn(heap[string], l, len(l), s)
+//@   call Strings before unfold forall s Str :: countIn(heap[string], l, len(l) - 1, s)
+//@   call Strings before unfold forall s Str :: countIn(heap[string], l, len(l) - 2, s)
+//@   call Strings before unfold forall s Str :: countIn(heap[string], l, len(l) - 3, s)
+//@   call Strings before use forall s Str :: {countIn(heap[string], l, len(l) - 4, s)} countIn_frame(at(L0, heap[string]), heap[string], at(L0, res0), l, len(l) - 4, s)
+
+//@ iface RenderTable.Render
+//@   dispatch go.pennock.tech/tabular/csv::(*CSVTable).Render, go.pennock.tech/tabular/html::(*HTMLTable).Render, go.pennock.tech/tabular/markdown::(*MarkdownTable).Render, go.pennock.tech/tabular/json::(*JSONTable).Render, go.pennock.tech/tabular/texttable::(*TextTable).Render
+
+//@ iface RenderTable.RenderTo
+//@   dispatch go.pennock.tech/tabular/csv::(*CSVTable).RenderTo, go.pennock.tech/tabular/html::(*HTMLTable).RenderTo, go.pennock.tech/tabular/markdown::(*MarkdownTable).RenderTo, go.pennock.tech/tabular/json::(*JSONTable).RenderTo, go.pennock.tech/tabular/texttable::(*TextTable).RenderTo
+
+//@ func New
+//@   tags C19,C10,C09
+//@   requires !lockHeld
+//@   ensures [lock-released] !lockHeld
+//@   ensures result != nil
+
+//@ func Render
+//@   tags C09,C10,C19
+//@   requires tbl(t) && t.(*tabular.ATable).nColumns <= 1048576 && !lockHeld
+//@   call Wrap after assume tbl(t)
+//@   ensures [error-means-no-text] result1 != nil ==> result0 == "" @C09
+
+//@ func RenderTo
+//@   tags C09,C10,C15,C19
+//@   requires w != nil && tbl(t) && t.(*tabular.ATable).nColumns <= 1048576 && !lockHeld && jstate == 0
+//@   call Wrap after assume tbl(t)
+//@   requires [writer-ok] !Wfailed
+//@   ensures [failing-writer-surfaces] Wfailed ==> result != nil @C15
